@@ -359,7 +359,7 @@ func c12Dec(c *fw.Ctx, i int) {
 	}
 	judged := d.NS <= 4
 	for _, plen := range []int{1, 0, 5} {
-		in := append(append([]byte{}, enc...), r.Bytes(plen)...)
+		in := fw.Exact(append(append([]byte{}, enc...), r.Bytes(plen)...))
 		var vp codecs.VP9Packet
 		var body []byte
 		var err error
@@ -446,7 +446,7 @@ func c12Dec(c *fw.Ctx, i int) {
 		}
 		var vp codecs.VP9Packet
 		var err error
-		in := append([]byte{}, enc[:cut]...)
+		in := fw.Exact(enc[:cut])
 		if pv, st := fw.Guard(func() { _, err = vp.Unmarshal(in) }); pv != nil {
 			c.Fail("C12/decoder/panic/"+fw.PanicFunc(st), fmt.Sprintf("VP9Packet.Unmarshal panicked on a truncated descriptor: %v", pv), fw.W("input", fw.Hex(in), "stack", st))
 			return
